@@ -98,6 +98,22 @@ def generate(run_seed, tier):
         m2 = [d.uniform(10, 500) for _ in range(n)]
         modes.append({'family': fam, 'weights': w, 'samples_u': su,
                       'm2logl': m2})
+    def gen_modes(nm):
+        out_ = []
+        m0 = d.choice([2, 3, 5, 8, 13, d.randint(2, 60)])
+        for k in range(nm):
+            n = m0 if (equal or k == 0) else max(2, m0 + d.randint(-m0 + 2, 8))
+            fam = d.choice(WEIGHT_FAMILIES)
+            out_.append({'family': fam, 'weights': gen_weights(d, n, fam),
+                         'samples_u': [[d.uniform(0.02, 0.98) for _ in fit]
+                                       for _ in range(n)],
+                         'm2logl': [d.uniform(10, 500) for _ in range(n)]})
+        return out_
+    second = None
+    if sampler != 'nestle_real' and c.random() < 0.25:
+        # the same optimizer object is fitted a second time (other posterior,
+        # possibly another number of modes)
+        second = gen_modes(c.choice([1, 2, 3]) if multimodal else 1)
     cfg = {'sampler': sampler, 'R': Rn, 'model': mcfg,
            'obs': obs_cfg, 'fit': fit, 'derived': derived,
            'multimodal': multimodal, 'modes': modes,
@@ -106,6 +122,8 @@ def generate(run_seed, tier):
            'stale_files': c.random() < 0.3,
            'leading_blank': c.random() < 0.5,
            'output_size': c.choice([1, 3, 6])}
+    if second:
+        cfg['second_fit'] = second
     return {'config': cfg, 'ops': []}
 
 
@@ -117,10 +135,10 @@ class Stop(Exception):
     pass
 
 
-def _post_from_cfg(cfg, fit_by_name, order):
+def _post_from_cfg(cfg, fit_by_name, order, key='modes'):
     """Materialise the generated posterior (per mode) in the prior's space."""
     modes = []
-    for md in cfg['modes']:
+    for md in cfg[key]:
         s = [S.sample_theta(fit_by_name, order, us) for us in md['samples_u']]
         s = [list(map(float, r)) for r in s]
         w = list(map(float, md['weights']))
@@ -162,7 +180,11 @@ def execute(case, keep_text=False, after_fit=None):
     order = S.fit_order(model0, obs0, fit)
     specs = [fit_by_name[n]['prior'] for n in order]
     ndim = len(order)
-    modes = _post_from_cfg(cfg, fit_by_name, order)
+    rounds = [_post_from_cfg(cfg, fit_by_name, order)]
+    if cfg.get('second_fit'):
+        rounds.append(_post_from_cfg(cfg, fit_by_name, order, 'second_fit'))
+    modes = rounds[0]
+    calls = {}        # rank -> number of sampler runs so far
     scratch = os.environ.get('VERIF_RUN_SCRATCH', '/dev/shm')
     chain = os.path.join(scratch, 'chains-c09')
     shutil.rmtree(chain, ignore_errors=True)
@@ -187,6 +209,8 @@ def execute(case, keep_text=False, after_fit=None):
         def on_run(self, skind, cbs, kwargs):
             from sim import mpi_world
             rank = mpi_world.current_rank()
+            modes = rounds[min(calls.get(rank, 0), len(rounds) - 1)]
+            calls[rank] = calls.get(rank, 0) + 1
             if skind == 'nestle':
                 import nestle
                 m = modes[0]
@@ -216,7 +240,10 @@ def execute(case, keep_text=False, after_fit=None):
             raise ValueError(skind)
 
         def analyzer_stats(self, n_params, base):
-            return samplers.multinest_stats(modes, cfg['multimodal'])
+            from sim import mpi_world
+            rank = mpi_world.current_rank()
+            cur = rounds[min(max(calls.get(rank, 1) - 1, 0), len(rounds) - 1)]
+            return samplers.multinest_stats(cur, cfg['multimodal'])
 
     plan = Plan()
     samplers.set_plan(plan)
@@ -226,6 +253,7 @@ def execute(case, keep_text=False, after_fit=None):
         samplers.bound_real_nestle(maxcall=4000)
     klasses = samplers.optimizer_classes()
     solutions = [None] * Rn
+    allsols = [None] * Rn
     opts = [None] * Rn
 
     def body(r):
@@ -250,9 +278,13 @@ def execute(case, keep_text=False, after_fit=None):
             pyrandom.seed(cfg['pyseed'])
             np.random.seed(cfg['npseed'] % 2**32)
         from taurex import OutputSize
-        sol = opt.fit(output_size=OutputSize(cfg.get('output_size', 6)))
-        solutions[r] = sol
-        return sol
+        sols = []
+        for _ in rounds:
+            sols.append(opt.fit(output_size=OutputSize(
+                cfg.get('output_size', 6))))
+        solutions[r] = sols[0]
+        allsols[r] = sols
+        return sols
 
     world = SimWorld(Rn, perms=[], log=log, cap=4000)
     import io
@@ -317,212 +349,217 @@ def execute(case, keep_text=False, after_fit=None):
                 viol('fit-raised', key, 'rank %d of %d: fit() raised %r\n%s'
                      % (r, Rn, e, tb[-1500:]))
                 raise Stop()
-        c0 = canon(solutions[0])
-        for r in range(1, Rn):
-            if canon(solutions[r]) != c0:
-                viol('ranks-disagree', 'solution', 'rank %d differs' % r)
-                raise Stop()
-        sol = solutions[0]
-        opt = opts[0]
-        log.add('fit', 'solution', sol)
-
-        if kind == 'nestle_real':
-            # ground truth = whatever the real sampler returned
-            o = opt._nestle_output['solution']
-            truth = [{'samples': np.array(o['samples']).tolist(),
-                      'weights': np.array(o['weights']).tolist(),
-                      'map': None, 'ml': None}]
-            out.bump('probes', 'real_nestle_run')
-        else:
-            truth = modes
-
-        nsol = len(truth)
-        keys = sorted(k for k in sol if k.startswith('solution'))
-        if keys != ['solution%d' % i for i in range(nsol)]:
-            viol('solutions', 'count', 'sampler reported %d mode(s), solution '
-                 'dictionary has %s' % (nsol, keys))
-            raise Stop()
-        fit_names = [('log_' + n) if M.ref_prior_is_log(fit_by_name[n]['prior'])
-                     else n for n in order]
-        binner0 = obs0.create_binner()
-        for si in range(nsol):
-            sd = sol['solution%d' % si]
-            tr = truth[si]
-            S_ = np.array(tr['samples'], dtype=float)
-            W_ = np.array(tr['weights'], dtype=float)
-            got_s = np.asarray(sd['tracedata'], dtype=float)
-            got_w = np.asarray(sd['weights'], dtype=float)
-            if got_s.shape != S_.shape or not np.array_equal(got_s, S_):
-                viol('trace-changed', 'tracedata', 'solution %d: stored '
-                     'samples differ from the sampler\'s' % si)
-                raise Stop()
-            if got_w.shape != W_.shape or not np.array_equal(got_w, W_):
-                viol('trace-changed', 'weights', 'solution %d: stored weights '
-                     'differ from the sampler\'s' % si)
-                raise Stop()
-            fp = sd['fit_params']
-            if sorted(fp) != sorted(fit_names):
-                viol('fit-params', 'names', '%s vs %s'
-                     % (sorted(fp), sorted(fit_names)))
-                raise Stop()
-            map_vec = []
-            med_vec = []
-            for i, fn in enumerate(fit_names):
-                ent = fp[fn]
-                col = S_[:, i].tolist()
-                if not np.array_equal(np.asarray(ent['trace'], dtype=float),
-                                      S_[:, i]):
-                    viol('trace-changed', 'param-trace', '%s: trace is not '
-                         'column %d of the samples' % (fn, i))
+        for rnd in range(len(rounds)):
+            modes = rounds[rnd]
+            solutions = [a[rnd] for a in allsols]
+            if rnd:
+                out.bump('probes', 'second_fit_same_optimizer')
+            c0 = canon(solutions[0])
+            for r in range(1, Rn):
+                if canon(solutions[r]) != c0:
+                    viol('ranks-disagree', 'solution', 'rank %d differs' % r)
                     raise Stop()
-                q16, q50, q84 = ref_quantiles(col, W_.tolist(),
-                                              [0.16, 0.5, 0.84])
-                scale = max(abs(q50), abs(q84 - q16), 1e-300)
-                for nm, want in (('value', q50), ('sigma_m', q50 - q16),
-                                 ('sigma_p', q84 - q50)):
-                    if abs(float(ent[nm]) - want) > 1e-9 * scale:
-                        viol('quantile', nm, '%s: %r, weighted quantile rule '
-                             'gives %r' % (fn, float(ent[nm]), want))
-                med_vec.append(q50)
-                wmean = float(np.sum(S_[:, i] * W_) / np.sum(W_))
-                if kind in ('nestle', 'nestle_real'):
-                    jm = [j for j in range(len(W_)) if W_[j] == W_.max()]
-                    mp = float(ent['map'])
-                    if mp not in [col[j] for j in jm]:
-                        viol('map', 'nestle', '%s: map %r is not a sample of '
-                             'greatest weight' % (fn, mp))
-                    if abs(float(ent['mean']) - wmean) > 1e-9 * max(
-                            abs(wmean), 1e-300):
-                        viol('mean', 'nestle', '%s: %r vs weighted mean %r'
-                             % (fn, float(ent['mean']), wmean))
-                    map_vec.append(mp)
-                elif kind == 'multinest':
-                    mp = float(ent['nest_map'])
-                    if mp != tr['map'][i]:
-                        viol('map', 'multinest', '%s: nest_map %r, sampler '
-                             'reported %r' % (fn, mp, tr['map'][i]))
-                    if abs(float(ent['mean']) - wmean) > 1e-9 * max(
-                            abs(wmean), 1e-300):
-                        viol('mean', 'multinest', '%s: %r vs weighted mean %r'
-                             % (fn, float(ent['mean']), wmean))
-                    map_vec.append(mp)
-                else:
-                    nm_ = np.asarray(ent['nest_mean'], dtype=float).ravel()
-                    if nm_.size != 1 or abs(float(nm_[0]) - wmean) > \
-                            1e-9 * max(abs(wmean), 1e-300):
-                        viol('mean', 'polychord', '%s: %r vs weighted mean %r'
-                             % (fn, ent['nest_mean'], wmean))
-                    mp = np.asarray(ent['nest_map'], dtype=float).ravel()
-                    if mp.size != 1 or float(mp[0]) not in col:
-                        viol('map', 'polychord', '%s: nest_map %r is not a '
-                             'stored sample' % (fn, ent['nest_map']))
+            sol = solutions[0]
+            opt = opts[0]
+            log.add('fit', 'solution', sol)
+
+            if kind == 'nestle_real':
+                # ground truth = whatever the real sampler returned
+                o = opt._nestle_output['solution']
+                truth = [{'samples': np.array(o['samples']).tolist(),
+                          'weights': np.array(o['weights']).tolist(),
+                          'map': None, 'ml': None}]
+                out.bump('probes', 'real_nestle_run')
+            else:
+                truth = modes
+
+            nsol = len(truth)
+            keys = sorted(k for k in sol if k.startswith('solution'))
+            if keys != ['solution%d' % i for i in range(nsol)]:
+                viol('solutions', 'count', 'sampler reported %d mode(s), solution '
+                     'dictionary has %s' % (nsol, keys))
+                raise Stop()
+            fit_names = [('log_' + n) if M.ref_prior_is_log(fit_by_name[n]['prior'])
+                         else n for n in order]
+            binner0 = obs0.create_binner()
+            for si in range(nsol):
+                sd = sol['solution%d' % si]
+                tr = truth[si]
+                S_ = np.array(tr['samples'], dtype=float)
+                W_ = np.array(tr['weights'], dtype=float)
+                got_s = np.asarray(sd['tracedata'], dtype=float)
+                got_w = np.asarray(sd['weights'], dtype=float)
+                if got_s.shape != S_.shape or not np.array_equal(got_s, S_):
+                    viol('trace-changed', 'tracedata', 'solution %d: stored '
+                         'samples differ from the sampler\'s' % si)
+                    raise Stop()
+                if got_w.shape != W_.shape or not np.array_equal(got_w, W_):
+                    viol('trace-changed', 'weights', 'solution %d: stored weights '
+                         'differ from the sampler\'s' % si)
+                    raise Stop()
+                fp = sd['fit_params']
+                if sorted(fp) != sorted(fit_names):
+                    viol('fit-params', 'names', '%s vs %s'
+                         % (sorted(fp), sorted(fit_names)))
+                    raise Stop()
+                map_vec = []
+                med_vec = []
+                for i, fn in enumerate(fit_names):
+                    ent = fp[fn]
+                    col = S_[:, i].tolist()
+                    if not np.array_equal(np.asarray(ent['trace'], dtype=float),
+                                          S_[:, i]):
+                        viol('trace-changed', 'param-trace', '%s: trace is not '
+                             'column %d of the samples' % (fn, i))
                         raise Stop()
-                    map_vec.append(float(mp[0]))
-            # the MAP is ONE sample: the per-parameter entries must be the
-            # coordinates of a single stored row (of greatest weight for
-            # nestle), not a mixture of rows
-            if not out.violations and kind != 'multinest':
-                rows = range(len(W_))
-                if kind in ('nestle', 'nestle_real'):
-                    rows = [j for j in rows if W_[j] == W_.max()]
-                if not any(all(S_[j, i] == map_vec[i] for i in range(ndim))
-                           for j in rows):
-                    viol('map', kind + ':not-one-sample', 'the reported MAP '
-                         'vector %r is not a single stored sample%s'
-                         % (map_vec, ' of greatest weight'
-                            if kind.startswith('nestle') else ''))
-            if out.violations:
-                raise Stop()
-
-            # spectrum at the MAP (fresh model, set by name, full native grid)
-            m2, o2 = mk()
-            S.ref_set(m2, o2, fit_by_name, order, map_vec)
-            ng, ym, tau, _ = m2.model(cutoff_grid=False)
-            sp = sd['Spectra']
-            if not np.array_equal(np.asarray(sp['native_wngrid']), ng):
-                viol('spectrum', 'native_wngrid', 'differs from the native grid')
-            elif not np.allclose(np.asarray(sp['native_spectrum']), ym,
-                                 rtol=1e-12, atol=0):
-                viol('spectrum', 'native_spectrum', 'stored spectrum is not '
-                     'the model at the MAP (max rel diff %.3g)'
-                     % float(np.max(np.abs(np.asarray(sp['native_spectrum'])
-                                           - ym) / np.abs(ym))))
-            elif is_toy:
-                pass          # NativeBinner: no binned spectrum is stored
-            else:
-                rb = refs.ref_bin(list(ng), list(ym),
-                                  list(o2.wavenumberGrid), list(o2.binWidths))
-                if not np.allclose(np.asarray(sp['binned_spectrum']),
-                                   np.array(rb), rtol=1e-11, atol=0):
-                    viol('spectrum', 'binned_spectrum', 'stored binned '
-                         'spectrum is not the MAP model binned to the '
-                         'observation')
-            # profiles at the median
-            S.ref_set(m2, o2, fit_by_name, order, med_vec)
-            m2.model(cutoff_grid=False)
-            from taurex.util.output import generate_profile_dict
-            if is_toy:
-                pref = {}
-            else:
-                pref = generate_profile_dict(m2)
-                pref['mu_profile'] = m2.chemistry.muProfile
-            pr = sd['Profiles']
-            for k in sorted(pref):
-                if k not in pr:
-                    viol('profiles', 'missing', k)
-                    continue
-                if not np.allclose(np.asarray(pr[k], dtype=float),
-                                   np.asarray(pref[k], dtype=float),
-                                   rtol=1e-12, atol=0):
-                    viol('profiles', k, 'stored %s is not the profile of the '
-                         'median solution' % k)
-            for k in ('temp_profile_std', 'active_mix_profile_std'):
-                if k not in pr and not is_toy:
-                    viol('profiles', 'missing', k)
-            if out.violations:
-                raise Stop()
-
-            # derived traces
-            dn = [n for n in m2.derivedParameters if n in derived] + \
-                 [n for n in o2.derivedParameters if n in derived]
-            if dn:
-                dp = sd.get('derived_params')
-                if dp is None or sorted(dp) != sorted('%s_derived' % d
-                                                      for d in dn):
-                    viol('derived', 'keys', 'got %s want %s'
-                         % (sorted(dp or {}), dn))
-                    raise Stop()
-                ref_tr = {d: [] for d in dn}
-                for j in range(len(W_)):
-                    S.ref_set(m2, o2, fit_by_name, order, S_[j])
-                    m2.initialize_profiles()
-                    for d in dn:
-                        ref_tr[d].append(float(
-                            (m2 if d in m2.derivedParameters
-                             else o2).derivedParameters[d][2]()))
-                for d in dn:
-                    ent = dp['%s_derived' % d]
-                    t = np.asarray(ent['trace'], dtype=float)
-                    rt = np.array(ref_tr[d])
-                    if t.shape != rt.shape:
-                        viol('derived', 'length', '%s: %d entries for %d '
-                             'samples' % (d, t.size, rt.size))
-                        continue
-                    if not np.allclose(t, rt, rtol=1e-12, atol=0):
-                        viol('derived', 'trace', '%s: trace is not the derived '
-                             'value at each sample in sample order' % d)
-                        continue
-                    q16, q50, q84 = ref_quantiles(list(rt), W_.tolist(),
+                    q16, q50, q84 = ref_quantiles(col, W_.tolist(),
                                                   [0.16, 0.5, 0.84])
-                    scale = max(abs(q50), 1e-300)
+                    scale = max(abs(q50), abs(q84 - q16), 1e-300)
                     for nm, want in (('value', q50), ('sigma_m', q50 - q16),
                                      ('sigma_p', q84 - q50)):
                         if abs(float(ent[nm]) - want) > 1e-9 * scale:
-                            viol('derived', nm, '%s: %r vs %r'
-                                 % (d, float(ent[nm]), want))
-            elif 'derived_params' in sd and sd['derived_params']:
-                viol('derived', 'unexpected', 'derived output without derived '
-                     'parameters enabled')
+                            viol('quantile', nm, '%s: %r, weighted quantile rule '
+                                 'gives %r' % (fn, float(ent[nm]), want))
+                    med_vec.append(q50)
+                    wmean = float(np.sum(S_[:, i] * W_) / np.sum(W_))
+                    if kind in ('nestle', 'nestle_real'):
+                        jm = [j for j in range(len(W_)) if W_[j] == W_.max()]
+                        mp = float(ent['map'])
+                        if mp not in [col[j] for j in jm]:
+                            viol('map', 'nestle', '%s: map %r is not a sample of '
+                                 'greatest weight' % (fn, mp))
+                        if abs(float(ent['mean']) - wmean) > 1e-9 * max(
+                                abs(wmean), 1e-300):
+                            viol('mean', 'nestle', '%s: %r vs weighted mean %r'
+                                 % (fn, float(ent['mean']), wmean))
+                        map_vec.append(mp)
+                    elif kind == 'multinest':
+                        mp = float(ent['nest_map'])
+                        if mp != tr['map'][i]:
+                            viol('map', 'multinest', '%s: nest_map %r, sampler '
+                                 'reported %r' % (fn, mp, tr['map'][i]))
+                        if abs(float(ent['mean']) - wmean) > 1e-9 * max(
+                                abs(wmean), 1e-300):
+                            viol('mean', 'multinest', '%s: %r vs weighted mean %r'
+                                 % (fn, float(ent['mean']), wmean))
+                        map_vec.append(mp)
+                    else:
+                        nm_ = np.asarray(ent['nest_mean'], dtype=float).ravel()
+                        if nm_.size != 1 or abs(float(nm_[0]) - wmean) > \
+                                1e-9 * max(abs(wmean), 1e-300):
+                            viol('mean', 'polychord', '%s: %r vs weighted mean %r'
+                                 % (fn, ent['nest_mean'], wmean))
+                        mp = np.asarray(ent['nest_map'], dtype=float).ravel()
+                        if mp.size != 1 or float(mp[0]) not in col:
+                            viol('map', 'polychord', '%s: nest_map %r is not a '
+                                 'stored sample' % (fn, ent['nest_map']))
+                            raise Stop()
+                        map_vec.append(float(mp[0]))
+                # the MAP is ONE sample: the per-parameter entries must be the
+                # coordinates of a single stored row (of greatest weight for
+                # nestle), not a mixture of rows
+                if not out.violations and kind != 'multinest':
+                    rows = range(len(W_))
+                    if kind in ('nestle', 'nestle_real'):
+                        rows = [j for j in rows if W_[j] == W_.max()]
+                    if not any(all(S_[j, i] == map_vec[i] for i in range(ndim))
+                               for j in rows):
+                        viol('map', kind + ':not-one-sample', 'the reported MAP '
+                             'vector %r is not a single stored sample%s'
+                             % (map_vec, ' of greatest weight'
+                                if kind.startswith('nestle') else ''))
+                if out.violations:
+                    raise Stop()
+
+                # spectrum at the MAP (fresh model, set by name, full native grid)
+                m2, o2 = mk()
+                S.ref_set(m2, o2, fit_by_name, order, map_vec)
+                ng, ym, tau, _ = m2.model(cutoff_grid=False)
+                sp = sd['Spectra']
+                if not np.array_equal(np.asarray(sp['native_wngrid']), ng):
+                    viol('spectrum', 'native_wngrid', 'differs from the native grid')
+                elif not np.allclose(np.asarray(sp['native_spectrum']), ym,
+                                     rtol=1e-12, atol=0):
+                    viol('spectrum', 'native_spectrum', 'stored spectrum is not '
+                         'the model at the MAP (max rel diff %.3g)'
+                         % float(np.max(np.abs(np.asarray(sp['native_spectrum'])
+                                               - ym) / np.abs(ym))))
+                elif is_toy:
+                    pass          # NativeBinner: no binned spectrum is stored
+                else:
+                    rb = refs.ref_bin(list(ng), list(ym),
+                                      list(o2.wavenumberGrid), list(o2.binWidths))
+                    if not np.allclose(np.asarray(sp['binned_spectrum']),
+                                       np.array(rb), rtol=1e-11, atol=0):
+                        viol('spectrum', 'binned_spectrum', 'stored binned '
+                             'spectrum is not the MAP model binned to the '
+                             'observation')
+                # profiles at the median
+                S.ref_set(m2, o2, fit_by_name, order, med_vec)
+                m2.model(cutoff_grid=False)
+                from taurex.util.output import generate_profile_dict
+                if is_toy:
+                    pref = {}
+                else:
+                    pref = generate_profile_dict(m2)
+                    pref['mu_profile'] = m2.chemistry.muProfile
+                pr = sd['Profiles']
+                for k in sorted(pref):
+                    if k not in pr:
+                        viol('profiles', 'missing', k)
+                        continue
+                    if not np.allclose(np.asarray(pr[k], dtype=float),
+                                       np.asarray(pref[k], dtype=float),
+                                       rtol=1e-12, atol=0):
+                        viol('profiles', k, 'stored %s is not the profile of the '
+                             'median solution' % k)
+                for k in ('temp_profile_std', 'active_mix_profile_std'):
+                    if k not in pr and not is_toy:
+                        viol('profiles', 'missing', k)
+                if out.violations:
+                    raise Stop()
+
+                # derived traces
+                dn = [n for n in m2.derivedParameters if n in derived] + \
+                     [n for n in o2.derivedParameters if n in derived]
+                if dn:
+                    dp = sd.get('derived_params')
+                    if dp is None or sorted(dp) != sorted('%s_derived' % d
+                                                          for d in dn):
+                        viol('derived', 'keys', 'got %s want %s'
+                             % (sorted(dp or {}), dn))
+                        raise Stop()
+                    ref_tr = {d: [] for d in dn}
+                    for j in range(len(W_)):
+                        S.ref_set(m2, o2, fit_by_name, order, S_[j])
+                        m2.initialize_profiles()
+                        for d in dn:
+                            ref_tr[d].append(float(
+                                (m2 if d in m2.derivedParameters
+                                 else o2).derivedParameters[d][2]()))
+                    for d in dn:
+                        ent = dp['%s_derived' % d]
+                        t = np.asarray(ent['trace'], dtype=float)
+                        rt = np.array(ref_tr[d])
+                        if t.shape != rt.shape:
+                            viol('derived', 'length', '%s: %d entries for %d '
+                                 'samples' % (d, t.size, rt.size))
+                            continue
+                        if not np.allclose(t, rt, rtol=1e-12, atol=0):
+                            viol('derived', 'trace', '%s: trace is not the derived '
+                                 'value at each sample in sample order' % d)
+                            continue
+                        q16, q50, q84 = ref_quantiles(list(rt), W_.tolist(),
+                                                      [0.16, 0.5, 0.84])
+                        scale = max(abs(q50), 1e-300)
+                        for nm, want in (('value', q50), ('sigma_m', q50 - q16),
+                                         ('sigma_p', q84 - q50)):
+                            if abs(float(ent[nm]) - want) > 1e-9 * scale:
+                                viol('derived', nm, '%s: %r vs %r'
+                                     % (d, float(ent[nm]), want))
+                elif 'derived_params' in sd and sd['derived_params']:
+                    viol('derived', 'unexpected', 'derived output without derived '
+                         'parameters enabled')
     except Stop:
         pass
     out.digest = log.digest()
@@ -533,6 +570,13 @@ def execute(case, keep_text=False, after_fit=None):
 def simplify(case):
     import copy
     cfg = case['config']
+    if cfg.get('second_fit'):
+        c = copy.deepcopy(case)
+        del c['config']['second_fit']
+        yield c
+        c = copy.deepcopy(case)
+        c['config']['modes'] = c['config'].pop('second_fit')
+        yield c
     if cfg['R'] > 1:
         c = copy.deepcopy(case)
         c['config']['R'] = 1
@@ -562,7 +606,7 @@ def simplify(case):
         for i in range(len(cfg['fit'])):
             c = copy.deepcopy(case)
             del c['config']['fit'][i]
-            for md in c['config']['modes']:
+            for md in c['config']['modes'] + c['config'].get('second_fit', []):
                 for row in md['samples_u']:
                     del row[-1]
             yield c
